@@ -115,7 +115,7 @@ Example mon_flags_progress_after_error :
 Proof. vm_compute. reflexivity. Qed.
 Example mon_flags_armed_timer_after_error :
   viol_codes (mon_run (init_ms Server false)
-     [BReport 4 false; BReport 39 true; BCloseData KUser; BClosedCb false; BSnap 39 true true 0 false]) = [22].
+     [BReport 4 false; BReport 39 true; BCloseData KUser; BClosedCb false; BSnap 39 true true 0 false]) = [22; 80].
 Proof. vm_compute. reflexivity. Qed.
 Example mon_flags_double_end :
   viol_codes (mon_run (init_ms Server false) [BCloseData KUser; BClosedCb true; BClosedCb true]) = [50].
